@@ -16,10 +16,19 @@
 // then re-offer the unconsumed rest followed by B[k..].
 use super::*;
 
-const JXLC: [u8; 4] = [0x6a, 0x78, 0x6c, 0x63];
-const JXLP: [u8; 4] = [0x6a, 0x78, 0x6c, 0x70];
-const BROB: [u8; 4] = [0x62, 0x72, 0x6f, 0x62];
-const JBRD: [u8; 4] = [0x6a, 0x62, 0x72, 0x64];
+// Box types are handled as big-endian u32 four-character codes in the specification (no array compares:
+// `[u8; 4] == [u8; 4]` is a memcmp loop for CBMC).
+type Fourcc = u32;
+const JXLC: Fourcc = 0x6a786c63;
+const JXLP: Fourcc = 0x6a786c70;
+const BROB: Fourcc = 0x62726f62;
+const JBRD: Fourcc = 0x6a627264;
+fn fourcc(t: [u8; 4]) -> Fourcc {
+    ((t[0] as u32) << 24) | ((t[1] as u32) << 16) | ((t[2] as u32) << 8) | (t[3] as u32)
+}
+fn fourcc_bytes(t: Fourcc) -> [u8; 4] {
+    [(t >> 24) as u8, (t >> 16) as u8, (t >> 8) as u8, t as u8]
+}
 /// 18181-2 9.2: the signature box  00 00 00 0C 'J' 'X' 'L' ' ' 0D 0A 87 0A
 const SPEC_CONTAINER_SIG: [u8; 12] = [0, 0, 0, 0x0c, 0x4a, 0x58, 0x4c, 0x20, 0x0d, 0x0a, 0x87, 0x0a];
 /// 18181-1: a bare codestream starts with FF 0A
@@ -29,6 +38,7 @@ const SPEC_CODESTREAM_SIG: [u8; 2] = [0xff, 0x0a];
 // abstract state
 // ------------------------------------------------------------------------------------------------
 #[derive(Clone, Copy, PartialEq, Eq)]
+#[repr(u8)]
 enum Seq {
     Initial,
     SingleJxlc,
@@ -47,15 +57,16 @@ fn kind_no(k: BitstreamKind) -> u8 {
 }
 
 #[derive(Clone, Copy, PartialEq, Eq)]
+#[repr(u8)]
 enum Ph {
     /// nothing recognised yet
     Sig,
     /// between boxes
     Hdr,
     /// inside a jxlp box, before its 4-byte index; `size` = payload size of the box incl. the index
-    Idx { ty: [u8; 4], size: Option<u64>, is_last: bool },
+    Idx { ty: Fourcc, size: Option<u64>, is_last: bool },
     /// inside a non-codestream box. `inner` = original type of a brob box once read.
-    Aux { ty: [u8; 4], size: Option<u64>, is_last: bool, inner: Option<[u8; 4]>, left: Option<usize> },
+    Aux { ty: Fourcc, size: Option<u64>, is_last: bool, inner: Option<Fourcc>, left: Option<usize> },
     /// delivering codestream bytes
     Code { kind: u8, left: Option<usize>, pending: bool },
 }
@@ -70,12 +81,12 @@ fn abs(p: &ContainerParser) -> AState {
     let ph = match &p.state {
         DetectState::WaitingSignature => Ph::Sig,
         DetectState::WaitingBoxHeader => Ph::Hdr,
-        DetectState::WaitingJxlpIndex(h) => Ph::Idx { ty: h.box_type().0, size: h.box_size(), is_last: h.is_last() },
+        DetectState::WaitingJxlpIndex(h) => Ph::Idx { ty: fourcc(h.box_type().0), size: h.box_size(), is_last: h.is_last() },
         DetectState::InAuxBox { header, brotli_box_type, bytes_left } => Ph::Aux {
-            ty: header.box_type().0,
+            ty: fourcc(header.box_type().0),
             size: header.box_size(),
             is_last: header.is_last(),
-            inner: brotli_box_type.map(|t| t.0),
+            inner: match brotli_box_type { Some(t) => Some(fourcc(t.0)), None => None },
             left: *bytes_left,
         },
         DetectState::InCodestream { kind, bytes_left, pending_no_more_aux_box } => {
@@ -93,8 +104,8 @@ fn abs(p: &ContainerParser) -> AState {
 
 /// 18181-2 9.3 (brob): the compressed box type shall not be 'brob' and shall not start with 'jxl'.
 /// jxl-oxide additionally refuses 'jbrd' (its error text says so); the spec follows the code there.
-fn reserved_for_brob(t: [u8; 4]) -> bool {
-    (t[0] == 0x6a && t[1] == 0x78 && t[2] == 0x6c) || t == BROB || t == JBRD
+fn reserved_for_brob(t: Fourcc) -> bool {
+    (t >> 8) == 0x6a786c || t == BROB || t == JBRD
 }
 
 // ------------------------------------------------------------------------------------------------
@@ -167,9 +178,9 @@ fn inv(p: &ContainerParser) -> bool {
 // ------------------------------------------------------------------------------------------------
 #[derive(Clone, Copy)]
 struct Parts {
-    ty: [u8; 4],
+    ty: Fourcc,
     size: Option<u64>,
-    inner: Option<[u8; 4]>,
+    inner: Option<Fourcc>,
     left: Option<usize>,
     kind: u8,
     pending: bool,
@@ -178,13 +189,10 @@ struct Parts {
     pcb: usize,
 }
 
-/// `sized` is a literal in every harness: DetectState keeps its discriminant in the niche of
-/// `InAuxBox.header.box_size`'s Option tag, so a symbolic tag there would make CBMC explore every arm
-/// of emit_single's match. Sized boxes and boxes running to end of file are therefore separate harnesses.
-fn any_parts(sized: bool) -> Parts {
+fn any_parts() -> Parts {
     let p = Parts {
         ty: kani::any(),
-        size: if sized { Some(kani::any()) } else { None },
+        size: kani::any(),
         inner: kani::any(),
         left: kani::any(),
         kind: kani::any(),
@@ -203,7 +211,8 @@ fn any_parts(sized: bool) -> Parts {
 }
 
 /// A header value as the real parser makes it (the fields are private to box_header.rs).
-fn mk_header(ty: [u8; 4], size: Option<u64>) -> ContainerBoxHeader {
+fn mk_header(ty: Fourcc, size: Option<u64>) -> ContainerBoxHeader {
+    let ty = fourcc_bytes(ty);
     let mut b = [0u8; 16];
     b[4] = ty[0];
     b[5] = ty[1];
@@ -236,7 +245,7 @@ fn build(phase: u8, p: &Parts) -> ContainerParser {
         2 => DetectState::WaitingJxlpIndex(mk_header(p.ty, p.size)),
         3 => DetectState::InAuxBox {
             header: mk_header(p.ty, p.size),
-            brotli_box_type: p.inner.map(ContainerBoxType),
+            brotli_box_type: match p.inner { Some(t) => Some(ContainerBoxType(fourcc_bytes(t))), None => None },
             bytes_left: p.left,
         },
         _ => DetectState::InCodestream {
@@ -260,8 +269,8 @@ fn build(phase: u8, p: &Parts) -> ContainerParser {
 }
 
 /// Any parser state in phase `phase` satisfying Inv.
-fn any_inv_state(phase: u8, sized: bool) -> (Parts, ContainerParser) {
-    let p = any_parts(sized);
+fn any_inv_state(phase: u8) -> (Parts, ContainerParser) {
+    let p = any_parts();
     let parser = build(phase, &p);
     kani::assume(inv(&parser));
     (p, parser)
@@ -271,12 +280,13 @@ fn any_inv_state(phase: u8, sized: bool) -> (Parts, ContainerParser) {
 // events, with payloads as (offset, length) into the fed buffer
 // ------------------------------------------------------------------------------------------------
 #[derive(Clone, Copy, PartialEq, Eq)]
+#[repr(u8)]
 enum Ev {
     Kind(u8),
     NoMoreAux,
-    Start { ty: [u8; 4], brotli: bool, last: bool },
-    Data { ty: [u8; 4], off: usize, len: usize },
-    End { ty: [u8; 4] },
+    Start { ty: Fourcc, brotli: bool, last: bool },
+    Data { ty: Fourcc, off: usize, len: usize },
+    End { ty: Fourcc },
     Code { off: usize, len: usize },
 }
 
@@ -294,9 +304,9 @@ fn observe(base: *const u8, e: &ParseEvent<'_>, at: usize) -> Ev {
     match e {
         ParseEvent::BitstreamKind(k) => Ev::Kind(kind_no(*k)),
         ParseEvent::NoMoreAuxBox => Ev::NoMoreAux,
-        ParseEvent::AuxBoxStart { ty, brotli_compressed, last_box } => Ev::Start { ty: ty.0, brotli: *brotli_compressed, last: *last_box },
-        ParseEvent::AuxBoxData(ty, d) => Ev::Data { ty: ty.0, off: off_of(base, d, at), len: d.len() },
-        ParseEvent::AuxBoxEnd(ty) => Ev::End { ty: ty.0 },
+        ParseEvent::AuxBoxStart { ty, brotli_compressed, last_box } => Ev::Start { ty: fourcc(ty.0), brotli: *brotli_compressed, last: *last_box },
+        ParseEvent::AuxBoxData(ty, d) => Ev::Data { ty: fourcc(ty.0), off: off_of(base, d, at), len: d.len() },
+        ParseEvent::AuxBoxEnd(ty) => Ev::End { ty: fourcc(ty.0) },
         ParseEvent::Codestream(d) => Ev::Code { off: off_of(base, d, at), len: d.len() },
     }
 }
@@ -305,6 +315,7 @@ fn observe(base: *const u8, e: &ParseEvent<'_>, at: usize) -> Ev {
 // spec_step: one call of ParseEvents::next on abstract state `s` with `buf` still to be read
 // ------------------------------------------------------------------------------------------------
 #[derive(Clone, Copy, PartialEq, Eq)]
+#[repr(u8)]
 enum Out {
     /// nothing can be said yet (buffer exhausted, or the next syntax element is incomplete)
     Quiet,
@@ -322,12 +333,12 @@ struct SpecStep {
 }
 
 /// box header per 18181-2 9.1; None = incomplete. Some(Err) = declared size smaller than the header.
-fn spec_header(b: &[u8]) -> Option<Result<([u8; 4], Option<u64>, usize), ()>> {
+fn spec_header(b: &[u8]) -> Option<Result<(Fourcc, Option<u64>, usize), ()>> {
     if b.len() < 8 {
         return None;
     }
     let size = u32::from_be_bytes([b[0], b[1], b[2], b[3]]);
-    let ty = [b[4], b[5], b[6], b[7]];
+    let ty = fourcc([b[4], b[5], b[6], b[7]]);
     if size == 0 {
         Some(Ok((ty, None, 8)))
     } else if size == 1 {
@@ -357,149 +368,179 @@ fn is_prefix_of(a: &[u8], full: &[u8]) -> bool {
     true
 }
 
+fn quiet(s: AState, pos: usize) -> SpecStep {
+    SpecStep { out: Out::Quiet, consumed: pos, next: s }
+}
+fn reject(s: AState, pos: usize, k: u8) -> SpecStep {
+    SpecStep { out: Out::Reject(k), consumed: pos, next: s }
+}
+fn event(s: AState, pos: usize, e: Ev) -> SpecStep {
+    SpecStep { out: Out::Event(e), consumed: pos, next: s }
+}
+
+/// One call of `next()`: the first event (or rejection) that state `s0` and the bytes of `buf` determine,
+/// or Quiet when `buf` ends before the next syntax element is complete. Silent transitions (a jxlc/jxlp/brob
+/// header, the jxlp index) are taken on the way; whatever they consumed stays consumed.
+/// Nothing at all happens on an empty buffer -- not even events that need no bytes.
 fn spec_step(s0: AState, buf: &[u8]) -> SpecStep {
-    let mut s = s0;
-    let mut pos = 0usize;
-    // a jxlp box is entered through two silent transitions (header, index) before its first event
-    let mut round = 0;
-    while round < 4 {
-        round += 1;
-        let rest = &buf[pos..];
-        if rest.is_empty() {
-            return SpecStep { out: Out::Quiet, consumed: pos, next: s };
+    match s0.ph {
+        Ph::Sig => spec_sig(s0, buf),
+        Ph::Hdr => spec_hdr(s0, buf),
+        Ph::Idx { .. } => spec_idx(s0, buf, 0),
+        Ph::Aux { .. } => spec_aux(s0, buf, 0),
+        Ph::Code { .. } => spec_code(s0, buf, 0),
+    }
+}
+
+/// 18181-2 9.1/9.2: FF 0A starts a bare codestream; the 12-byte signature box starts a container; a proper
+/// prefix of either is undecided; anything else is not a JPEG XL file (delivered as an "invalid" codestream).
+fn spec_sig(mut s: AState, buf: &[u8]) -> SpecStep {
+    if buf.is_empty() {
+        return quiet(s, 0);
+    }
+    if is_prefix_of(&SPEC_CODESTREAM_SIG, buf) {
+        // the signature is part of the codestream: not consumed
+        s.ph = Ph::Code { kind: 1, left: None, pending: true };
+        event(s, 0, Ev::Kind(1))
+    } else if is_prefix_of(&SPEC_CONTAINER_SIG, buf) {
+        s.ph = Ph::Hdr;
+        event(s, 12, Ev::Kind(2))
+    } else if is_prefix_of(buf, &SPEC_CODESTREAM_SIG) || is_prefix_of(buf, &SPEC_CONTAINER_SIG) {
+        quiet(s, 0)
+    } else {
+        s.ph = Ph::Code { kind: 3, left: None, pending: true };
+        event(s, 0, Ev::Kind(3))
+    }
+}
+
+fn spec_hdr(mut s: AState, buf: &[u8]) -> SpecStep {
+    if buf.is_empty() {
+        return quiet(s, 0);
+    }
+    let (ty, payload, hs) = match spec_header(buf) {
+        None => return quiet(s, 0),
+        // declared size smaller than the header; nothing consumed
+        Some(Err(())) => return reject(s, 0, 0),
+        Some(Ok(h)) => h,
+    };
+    let pos = hs;
+    let undersized = match payload { Some(n) => n < 4, None => false };
+    if ty == JXLC {
+        // exactly one jxlc, and never together with jxlp
+        if s.seq != Seq::Initial {
+            return reject(s, pos, 0);
         }
-        match s.ph {
-            Ph::Sig => {
-                if is_prefix_of(&SPEC_CODESTREAM_SIG, rest) {
-                    // the signature is part of the codestream: not consumed
-                    s.ph = Ph::Code { kind: 1, left: None, pending: true };
-                    return SpecStep { out: Out::Event(Ev::Kind(1)), consumed: pos, next: s };
-                } else if is_prefix_of(&SPEC_CONTAINER_SIG, rest) {
-                    s.ph = Ph::Hdr;
-                    return SpecStep { out: Out::Event(Ev::Kind(2)), consumed: pos + 12, next: s };
-                } else if is_prefix_of(rest, &SPEC_CODESTREAM_SIG) || is_prefix_of(rest, &SPEC_CONTAINER_SIG) {
-                    return SpecStep { out: Out::Quiet, consumed: pos, next: s };
-                } else {
-                    s.ph = Ph::Code { kind: 3, left: None, pending: true };
-                    return SpecStep { out: Out::Event(Ev::Kind(3)), consumed: pos, next: s };
-                }
+        s.seq = Seq::SingleJxlc;
+        let left = payload.map(|n| n as usize);
+        s.ph = Ph::Code { kind: 2, left, pending: left.is_none() };
+        spec_code(s, buf, pos)
+    } else if ty == JXLP {
+        // a jxlp payload starts with a 4-byte index
+        if undersized {
+            return reject(s, pos, 0);
+        }
+        s.seq = match s.seq {
+            Seq::Initial => Seq::Jxlp(0),
+            Seq::Jxlp(i) => Seq::Jxlp(i + 1),
+            // jxlp after jxlc, jxlp after the final jxlp
+            Seq::SingleJxlc | Seq::Finished => return reject(s, pos, 0),
+        };
+        s.ph = Ph::Idx { ty, size: payload, is_last: payload.is_none() };
+        spec_idx(s, buf, pos)
+    } else if ty == BROB {
+        // a brob payload starts with the 4-byte original type; the box is announced once that is known
+        if undersized {
+            return reject(s, pos, 0);
+        }
+        s.ph = Ph::Aux { ty, size: payload, is_last: payload.is_none(), inner: None, left: payload.map(|n| n as usize) };
+        spec_aux(s, buf, pos)
+    } else {
+        s.ph = Ph::Aux { ty, size: payload, is_last: payload.is_none(), inner: None, left: payload.map(|n| n as usize) };
+        event(s, pos, Ev::Start { ty, brotli: false, last: payload.is_none() })
+    }
+}
+
+fn spec_idx(mut s: AState, buf: &[u8], mut pos: usize) -> SpecStep {
+    let rest = &buf[pos..];
+    let size = match s.ph { Ph::Idx { size, .. } => size, _ => return reject(s, pos, 0xff) };
+    if rest.len() < 4 {
+        return quiet(s, pos);
+    }
+    // 18181-2 9.? jxlp: u32 BE, high bit = last partial box, low 31 bits = sequence number from 0
+    let v = u32::from_be_bytes([rest[0], rest[1], rest[2], rest[3]]);
+    pos += 4;
+    let last = v >> 31 == 1;
+    let index = v & 0x7fff_ffff;
+    match s.seq {
+        Seq::Jxlp(expected) if expected == index => {
+            if last {
+                s.seq = Seq::Finished;
             }
-            Ph::Hdr => match spec_header(rest) {
-                None => return SpecStep { out: Out::Quiet, consumed: pos, next: s },
-                Some(Err(())) => return SpecStep { out: Out::Reject(0), consumed: pos, next: s },
-                Some(Ok((ty, payload, hs))) => {
-                    pos += hs;
-                    if ty == JXLC {
-                        // exactly one jxlc, and never together with jxlp
-                        if s.seq != Seq::Initial {
-                            return SpecStep { out: Out::Reject(0), consumed: pos, next: s };
-                        }
-                        s.seq = Seq::SingleJxlc;
-                        let left = payload.map(|n| n as usize);
-                        s.ph = Ph::Code { kind: 2, left, pending: left.is_none() };
-                    } else if ty == JXLP {
-                        if let Some(n) = payload {
-                            if n < 4 {
-                                return SpecStep { out: Out::Reject(0), consumed: pos, next: s };
-                            }
-                        }
-                        s.seq = match s.seq {
-                            Seq::Initial => Seq::Jxlp(0),
-                            Seq::Jxlp(i) => Seq::Jxlp(i + 1),
-                            Seq::SingleJxlc | Seq::Finished => return SpecStep { out: Out::Reject(0), consumed: pos, next: s },
-                        };
-                        s.ph = Ph::Idx { ty, size: payload, is_last: payload.is_none() };
-                    } else {
-                        let left = payload.map(|n| n as usize);
-                        if ty == BROB {
-                            if let Some(n) = payload {
-                                if n < 4 {
-                                    return SpecStep { out: Out::Reject(0), consumed: pos, next: s };
-                                }
-                            }
-                            // the box is announced once its original type is known
-                            s.ph = Ph::Aux { ty, size: payload, is_last: payload.is_none(), inner: None, left };
-                        } else {
-                            s.ph = Ph::Aux { ty, size: payload, is_last: payload.is_none(), inner: None, left };
-                            return SpecStep {
-                                out: Out::Event(Ev::Start { ty, brotli: false, last: payload.is_none() }),
-                                consumed: pos,
-                                next: s,
-                            };
-                        }
-                    }
-                }
-            },
-            Ph::Idx { size, .. } => {
-                if rest.len() < 4 {
-                    return SpecStep { out: Out::Quiet, consumed: pos, next: s };
-                }
-                let v = u32::from_be_bytes([rest[0], rest[1], rest[2], rest[3]]);
-                pos += 4;
-                let last = v >> 31 == 1;
-                let index = v & 0x7fff_ffff;
-                match s.seq {
-                    Seq::Jxlp(expected) if expected == index => {
-                        if last {
-                            s.seq = Seq::Finished;
-                        }
-                    }
-                    // out of order (Inv: seq is Jxlp here)
-                    _ => return SpecStep { out: Out::Reject(0), consumed: pos, next: s },
-                }
-                let left = size.map(|n| (n - 4) as usize);
-                s.ph = Ph::Code { kind: 2, left, pending: left.is_none() };
-            }
-            Ph::Code { kind, left, pending } => {
-                if pending {
-                    s.ph = Ph::Code { kind, left, pending: false };
-                    return SpecStep { out: Out::Event(Ev::NoMoreAux), consumed: pos, next: s };
-                }
-                match left {
-                    None => {
-                        return SpecStep { out: Out::Event(Ev::Code { off: pos, len: rest.len() }), consumed: pos + rest.len(), next: s };
-                    }
-                    Some(n) => {
-                        let take = if n < rest.len() { n } else { rest.len() };
-                        s.ph = if rest.len() >= n { Ph::Hdr } else { Ph::Code { kind, left: Some(n - take), pending } };
-                        return SpecStep { out: Out::Event(Ev::Code { off: pos, len: take }), consumed: pos + take, next: s };
-                    }
-                }
-            }
-            Ph::Aux { ty, size, is_last, inner, left } => {
-                if ty == BROB && inner.is_none() {
-                    if rest.len() < 4 {
-                        return SpecStep { out: Out::Quiet, consumed: pos, next: s };
-                    }
-                    let t = [rest[0], rest[1], rest[2], rest[3]];
-                    pos += 4;
-                    if reserved_for_brob(t) {
-                        return SpecStep { out: Out::Reject(1), consumed: pos, next: s };
-                    }
-                    let left = left.map(|l| l - 4);
-                    s.ph = Ph::Aux { ty, size, is_last, inner: Some(t), left };
-                    return SpecStep { out: Out::Event(Ev::Start { ty: t, brotli: true, last: left.is_none() }), consumed: pos, next: s };
-                }
-                let ety = match inner { Some(t) => t, None => ty };
-                match left {
-                    Some(0) => {
-                        s.ph = Ph::Hdr;
-                        return SpecStep { out: Out::Event(Ev::End { ty: ety }), consumed: pos, next: s };
-                    }
-                    Some(n) => {
-                        let take = if n < rest.len() { n } else { rest.len() };
-                        s.ph = Ph::Aux { ty, size, is_last, inner, left: Some(n - take) };
-                        return SpecStep { out: Out::Event(Ev::Data { ty: ety, off: pos, len: take }), consumed: pos + take, next: s };
-                    }
-                    None => {
-                        return SpecStep { out: Out::Event(Ev::Data { ty: ety, off: pos, len: rest.len() }), consumed: pos + rest.len(), next: s };
-                    }
-                }
-            }
+        }
+        // out of order (Inv: seq is Jxlp(_) in this phase)
+        _ => return reject(s, pos, 0),
+    }
+    let left = size.map(|n| (n - 4) as usize);
+    s.ph = Ph::Code { kind: 2, left, pending: left.is_none() };
+    spec_code(s, buf, pos)
+}
+
+fn spec_code(mut s: AState, buf: &[u8], pos: usize) -> SpecStep {
+    let avail = buf.len() - pos;
+    let (kind, left, pending) = match s.ph { Ph::Code { kind, left, pending } => (kind, left, pending), _ => return reject(s, pos, 0xff) };
+    if avail == 0 {
+        return quiet(s, pos);
+    }
+    if pending {
+        // a codestream that runs to the end of the file: no further boxes
+        s.ph = Ph::Code { kind, left, pending: false };
+        return event(s, pos, Ev::NoMoreAux);
+    }
+    match left {
+        None => event(s, pos + avail, Ev::Code { off: pos, len: avail }),
+        Some(n) => {
+            let take = if n < avail { n } else { avail };
+            s.ph = if avail >= n { Ph::Hdr } else { Ph::Code { kind, left: Some(n - take), pending } };
+            event(s, pos + take, Ev::Code { off: pos, len: take })
         }
     }
-    // not reachable under Inv: at most header -> index -> event
-    SpecStep { out: Out::Reject(0xff), consumed: pos, next: s }
+}
+
+fn spec_aux(mut s: AState, buf: &[u8], mut pos: usize) -> SpecStep {
+    let rest = &buf[pos..];
+    let (ty, size, is_last, inner, left) = match s.ph {
+        Ph::Aux { ty, size, is_last, inner, left } => (ty, size, is_last, inner, left),
+        _ => return reject(s, pos, 0xff),
+    };
+    if rest.is_empty() {
+        return quiet(s, pos);
+    }
+    if ty == BROB && inner.is_none() {
+        if rest.len() < 4 {
+            return quiet(s, pos);
+        }
+        let t = fourcc([rest[0], rest[1], rest[2], rest[3]]);
+        pos += 4;
+        if reserved_for_brob(t) {
+            return reject(s, pos, 1);
+        }
+        let left = left.map(|l| l - 4);
+        s.ph = Ph::Aux { ty, size, is_last, inner: Some(t), left };
+        return event(s, pos, Ev::Start { ty: t, brotli: true, last: left.is_none() });
+    }
+    let ety = match inner { Some(t) => t, None => ty };
+    match left {
+        Some(0) => {
+            s.ph = Ph::Hdr;
+            event(s, pos, Ev::End { ty: ety })
+        }
+        Some(n) => {
+            let take = if n < rest.len() { n } else { rest.len() };
+            s.ph = Ph::Aux { ty, size, is_last, inner, left: Some(n - take) };
+            event(s, pos + take, Ev::Data { ty: ety, off: pos, len: take })
+        }
+        None => event(s, pos + rest.len(), Ev::Data { ty: ety, off: pos, len: rest.len() }),
+    }
 }
 
 // ------------------------------------------------------------------------------------------------
@@ -512,15 +553,41 @@ fn largesize_cut(b: &[u8]) -> bool {
     b.len() >= 8 && b.len() < 16 && b[0] == 0 && b[1] == 0 && b[2] == 0 && b[3] == 1
 }
 
-/// One `next()` from any Inv state in phase `phase`, on any buffer of <= MAXB bytes.
-fn step_contract(phase: u8, sized: bool) {
-    let data: [u8; MAXB] = kani::any();
-    let len: usize = kani::any();
+/// Which part of (state x input) a harness covers. Everything here is a literal at the call site, so
+/// CBMC's symbolic execution follows only the arms of emit_single that the case can reach.
+#[derive(Clone, Copy)]
+struct Case {
+    /// 0 WaitingSignature, 1 WaitingBoxHeader, 2 WaitingJxlpIndex, 3 InAuxBox, 4 InCodestream
+    phase: u8,
+    /// InAuxBox: the current box is not a brob box
+    plain_aux: bool,
+    /// the buffer holds exactly this many bytes (None: any length 0..=MAXB)
+    exact_len: Option<usize>,
+    /// the buffer starts with 00 00 00 01 (a box header with a 64-bit largesize)
+    largesize: bool,
+}
+
+/// One `next()` from any Inv state of the case, on any buffer of <= MAXB bytes.
+fn step_contract(case: Case) {
+    let mut data: [u8; MAXB] = kani::any();
+    if case.largesize {
+        data[0] = 0;
+        data[1] = 0;
+        data[2] = 0;
+        data[3] = 1;
+    }
+    let len: usize = match case.exact_len {
+        Some(n) => n,
+        None => kani::any(),
+    };
     kani::assume(len <= MAXB);
     let buf = &data[..len];
     let base = data.as_ptr();
 
-    let (_parts, mut parser) = any_inv_state(phase, sized);
+    let (parts, mut parser) = any_inv_state(case.phase);
+    if case.plain_aux {
+        kani::assume(parts.ty != BROB);
+    }
     let before = abs(&parser);
     let pcb0 = parser.previous_consumed_bytes;
     let finished0: bool = kani::any();
@@ -612,46 +679,76 @@ fn step_contract(phase: u8, sized: bool) {
     std::mem::forget(r);
 }
 
+const ANY: Case = Case { phase: 0, plain_aux: false, exact_len: None, largesize: false };
+
+// Unwind bounds: emit_single's loop runs at most 3 times (header -> jxlp index -> first event); the only
+// other loops are memcmp (12 for the container signature, 4 for `tbox == CODESTREAM` / "brob", 3 for "jxl")
+// and is_prefix_of (<= 12). Unwinding assertions are on.
+//
+// Cost note: CBMC cannot see DetectState's niche-encoded discriminant as a constant once emit_single has
+// assigned `*state`, so every unrolled iteration of its loop explores all arms (about 30 s each). The two
+// general harnesses for WaitingBoxHeader and InAuxBox therefore take minutes (tier thorough); the quick
+// tier runs the same contract on buffers of a fixed length for which the loop provably stops early.
 #[kani::proof]
 #[kani::unwind(14)]
 fn step_signature() {
-    step_contract(0, false);
+    step_contract(Case { phase: 0, ..ANY });
 }
 
+// WaitingBoxHeader, all box types, all three size forms, any buffer <= MAXB (thorough).
 #[kani::proof]
-#[kani::unwind(6)]
+#[kani::unwind(5)]
 fn step_box_header() {
-    step_contract(1, false);
+    step_contract(Case { phase: 1, ..ANY });
+}
+
+// WaitingBoxHeader, buffer = exactly one 8-byte header (all 2^64 of them): every dispatch and rejection
+// rule of the header arm, the silent transitions into a jxlc / jxlp / brob box, AuxBoxStart.
+#[kani::proof]
+#[kani::unwind(5)]
+fn step_box_header_8() {
+    step_contract(Case { phase: 1, exact_len: Some(8), ..ANY });
+}
+
+// WaitingBoxHeader, buffer = exactly one 16-byte header with a largesize field (all types and sizes).
+#[kani::proof]
+#[kani::unwind(5)]
+fn step_box_header_16() {
+    step_contract(Case { phase: 1, exact_len: Some(16), largesize: true, ..ANY });
 }
 
 #[kani::proof]
-#[kani::unwind(6)]
-fn step_jxlp_index_sized() {
-    step_contract(2, true);
+#[kani::unwind(5)]
+fn step_jxlp_index() {
+    step_contract(Case { phase: 2, ..ANY });
+}
+
+// InAuxBox, all box types including brob (original type read or not), any buffer <= MAXB (thorough).
+#[kani::proof]
+#[kani::unwind(5)]
+fn step_aux_box() {
+    step_contract(Case { phase: 3, ..ANY });
+}
+
+// InAuxBox of a box that is not brob, any buffer <= MAXB: one iteration of emit_single suffices and the
+// unwinding assertion proves it.
+#[kani::proof]
+#[kani::unwind(2)]
+fn step_aux_box_plain() {
+    step_contract(Case { phase: 3, plain_aux: true, ..ANY });
+}
+
+// InAuxBox, all box types including brob, buffer = exactly 4 bytes (the original type of a brob box).
+#[kani::proof]
+#[kani::unwind(5)]
+fn step_aux_box_4() {
+    step_contract(Case { phase: 3, exact_len: Some(4), ..ANY });
 }
 
 #[kani::proof]
-#[kani::unwind(6)]
-fn step_jxlp_index_eof() {
-    step_contract(2, false);
-}
-
-#[kani::proof]
-#[kani::unwind(6)]
-fn step_aux_box_sized() {
-    step_contract(3, true);
-}
-
-#[kani::proof]
-#[kani::unwind(6)]
-fn step_aux_box_eof() {
-    step_contract(3, false);
-}
-
-#[kani::proof]
-#[kani::unwind(6)]
+#[kani::unwind(5)]
 fn step_codestream() {
-    step_contract(4, false);
+    step_contract(Case { phase: 4, ..ANY });
 }
 
 // base case of the induction + feed_bytes resets the consumption counter + kind()
@@ -663,8 +760,7 @@ fn init_establishes_inv() {
 
     let phase: u8 = kani::any();
     kani::assume(phase <= 4);
-    let sized: bool = kani::any();
-    let (_parts, mut q) = any_inv_state(phase, sized);
+    let (_parts, mut q) = any_inv_state(phase);
     let before = abs(&q);
     let k = q.kind();
     let expect = match before.ph { Ph::Sig => 0, Ph::Code { kind, .. } => kind, _ => 2 };
